@@ -507,6 +507,10 @@ func RunLoaded(l *Loaded, o Opts) *report.Report {
 					st = strings.TrimSuffix(st, "#store") + "#defer"
 				}
 				tr.Final[f.Th] = st
+				if tr.FinalFn == nil {
+					tr.FinalFn = map[int]string{}
+				}
+				tr.FinalFn[f.Th] = f.Fn
 			}
 		}
 		var sites []report.Site
